@@ -71,6 +71,18 @@ class Gen:
                 self.vars[str(b)] = b
             val = w.adt("Constant", "ByteString", VecV(Arr(tuple(BV(b, 8, False) for b in bs))))
             return val, ("bytesN", bs)
+        if kind == "str" and length is not None:
+            # a string of `length` symbolic Unicode scalar values; its bytes are their UTF-8 encoding (so that code which
+            # walks the characters - str::chars - is covered as well as code which looks at the bytes)
+            cps, parts = [], []
+            for _ in range(length):
+                cp = z3.Int(self.fresh("cp"))
+                self.vars[str(cp)] = cp
+                self.assume.append(z3.And(cp >= 0, cp <= 0x10FFFF, z3.Or(cp < 0xD800, cp > 0xDFFF)))
+                cps.append(cp)
+                parts.append(utf8_of(cp))
+            s = z3.Concat(*parts) if len(parts) > 1 else (parts[0] if parts else z3.Empty(ByteSeq))
+            return w.adt("Constant", "String", Str(s, tuple(cps))), ("str", s)
         if kind == "str":
             s = z3.Const(self.fresh("s"), ByteSeq)
             self.vars[str(s)] = s
@@ -270,6 +282,17 @@ def eq_spec(a: tuple, b: tuple):
     return z3.BoolVal(False)
 
 
+def utf8_of(cp):
+    """UTF-8 encoding of the scalar value cp (z3 Int) as a z3 byte sequence (RFC 3629)"""
+    def b(e):
+        return z3.Unit(z3.Int2BV(e, 8))
+    one = b(cp)
+    two = z3.Concat(b(0xC0 + cp / 64), b(0x80 + cp % 64))
+    three = z3.Concat(b(0xE0 + cp / 4096), b(0x80 + (cp / 64) % 64), b(0x80 + cp % 64))
+    four = z3.Concat(b(0xF0 + cp / 262144), b(0x80 + (cp / 4096) % 64), b(0x80 + (cp / 64) % 64), b(0x80 + cp % 64))
+    return z3.If(cp < 0x80, one, z3.If(cp < 0x800, two, z3.If(cp < 0x10000, three, four)))
+
+
 def instantiate(kinds, tier):
     """Expand polymorphic kinds ('list:any', 'pair:any,any', 'elem') into concrete instances with list lengths."""
     elem_kinds = ["int", "bytes"] if tier == "quick" else ["int", "bytes", "data", "bool"]
@@ -289,7 +312,8 @@ def instantiate(kinds, tier):
             else:
                 ks.append(k)
         dshapes = ["i", "ibig", "ineg", "b", "list0", "list2", "map0", "map1", "constrc0", "constrc2", "constra1"]
-        lens_axes = [range(0, maxlen + 1) if (k.startswith("list:") or k == "bytesN") else (dshapes if k == "data" else [None]) for k in ks]
+        str_axis = [None, 2] if tier == "quick" else [None, 0, 1, 2, 3]
+        lens_axes = [range(0, maxlen + 1) if (k.startswith("list:") or k == "bytesN") else (dshapes if k == "data" else (str_axis if k == "str" else [None])) for k in ks]
         for lens in itertools.product(*lens_axes):
             insts.append((ks, list(lens)))
     return insts
